@@ -87,7 +87,7 @@ class COOData:
         return replace(
             self,
             indices=np.hstack((self.indices, other.indices)),
-            data=np.hstack((self.data, other.data)),
+            data=np.concatenate((self.data, other.data)),
             shape=tuple(max(self.shape[i],
                             other.shape[i]) for i in range(len(self.shape))),
             local_shape=None,
